@@ -38,6 +38,8 @@ type Prog struct {
 	lockMaps   map[string]bool
 	sentinelOK map[*ssa.Global]bool
 	lockReqs   map[*ssa.Function][]lockReq
+	monotone   map[string]*GuardDecl // "typeName.field"
+	fvTargets  map[string][]*ssa.Function
 }
 
 func relKey(fn *ssa.Function) string {
@@ -255,6 +257,12 @@ func (p *Prog) indexSpecs() error {
 		}
 		for _, g := range sf.Guards {
 			p.guards[qual(g.Recv)+"."+g.Field] = g
+		}
+		for _, g := range sf.Monotone {
+			if p.monotone == nil {
+				p.monotone = map[string]*GuardDecl{}
+			}
+			p.monotone[qual(g.Recv)+"."+g.Field] = g
 		}
 		p.lemmas = append(p.lemmas, sf.Lemmas...)
 		p.specAssumes = append(p.specAssumes, sf.Assumes...)
